@@ -76,6 +76,11 @@ struct C19Case {
     door_line: usize,
     /// type CONT after the (refused) door: nothing may have been left to continue into the program
     cont_after: bool,
+    /// the door is typed behind `PRINT "X";:` (the refusal arrives with the cursor mid-line)
+    door_prefix: bool,
+    /// the damage is done by the program itself: its first line DELETEs the target of a later GOTO
+    /// (numbers of the GOTO line and of the deleted line); the clean program is RUN first
+    self_delete: Option<(u16, u16)>,
     replies: Vec<String>,
     sched_variant: usize,
     entropy: u64,
@@ -242,6 +247,11 @@ impl C19Case {
             touched_nums.push(num);
             planted.push((num, d.fault.clone(), spelled));
         }
+        if let Some((y, z)) = self.self_delete {
+            // the program has deleted line z itself (pre-run): the GOTO z in line y dangles now
+            p.lines.retain(|l| l.num != z);
+            planted.push((y, Fault::Dangling("Goto"), Some(z)));
+        }
         // Target::L indices refer to the base program: resolve them to numbers before sorting
         let base_nums: Vec<u16> = base.lines.iter().map(|l| l.num).collect();
         crate::gen::map_targets(&mut p, &mut |t| {
@@ -255,6 +265,15 @@ impl C19Case {
     }
 
     fn door_text(&self, d: &Damaged) -> String {
+        let t = self.door_text_plain(d);
+        if self.door_prefix && matches!(self.door, Door::Run | Door::RunN | Door::Goto | Door::Gosub | Door::OnGoto | Door::OnGosub | Door::IfThen) {
+            format!("PRINT \"X\";:{}", t)
+        } else {
+            t
+        }
+    }
+
+    fn door_text_plain(&self, d: &Damaged) -> String {
         let nums: Vec<u16> = self.prog.lines.iter().map(|l| l.num).collect();
         let n = if nums.is_empty() { 10 } else { nums[self.door_line % nums.len()] };
         match self.door {
@@ -372,7 +391,8 @@ impl Case for C19Case {
         let mut w = World::booted(sched(self.sched_variant), self.entropy, false);
         enter_program(&mut w, &clean);
         let mut reply_pos = 0usize;
-        if let Some(k) = self.pre_run {
+        let pre_run = if self.self_delete.is_some() { Some(None) } else { self.pre_run };
+        if let Some(k) = pre_run {
             let mut io = LineIo {
                 replies: self.replies.clone(),
                 max_instr: 5000,
@@ -436,6 +456,12 @@ impl Case for C19Case {
                 w.disk.insert("DAMAGED".into(), damaged_lines.clone());
             }
             let door = self.door_text(&d);
+            if self.self_delete.is_some() {
+                w.stats.bump("c19.self_deleting_program");
+            }
+            if door.starts_with("PRINT \"X\";:") {
+                w.stats.bump("c19.door_with_cursor_mid_line");
+            }
             let io = LineIo {
                 replies: self.replies[reply_pos.min(self.replies.len())..].to_vec(),
                 max_instr: 5000,
@@ -460,9 +486,13 @@ impl Case for C19Case {
             });
             // (ii) nothing of the program ran
             let mut ran: Option<String> = None;
+            let mut prefix_seen = false;
             for e in &evs {
                 match e {
                     Ev::Print(s) if is_ready_print(s) => {}
+                    // the door's own `PRINT "X";` and the line break in front of the report
+                    Ev::Print(s) if door.starts_with("PRINT \"X\";:") && !prefix_seen && s == "X" => prefix_seen = true,
+                    Ev::Print(s) if door.starts_with("PRINT \"X\";:") && prefix_seen && s == "\n" => {}
                     Ev::Print(s) => {
                         // a direct PRINT FNx(..) may print the function's value; a trace token never
                         if self.door == Door::FnCall && !s.contains('[') {
@@ -669,7 +699,7 @@ impl Case for C19Case {
             }));
         }
         for p in shrink_program(&self.prog) {
-            if p.lines.len() == self.prog.lines.len() {
+            if p.lines.len() == self.prog.lines.len() && self.self_delete.is_none() {
                 out.push(Box::new(C19Case {
                     prog: p,
                     ..self.clone()
@@ -689,6 +719,12 @@ impl Case for C19Case {
         if self.cont_after {
             out.push(Box::new(C19Case {
                 cont_after: false,
+                ..self.clone()
+            }));
+        }
+        if self.door_prefix {
+            out.push(Box::new(C19Case {
+                door_prefix: false,
                 ..self.clone()
             }));
         }
@@ -753,6 +789,37 @@ impl Property for C19 {
                 l.num = (start + step * i as u32) as u16;
             }
         }
+        // 6%: the program damages itself: `first-1 DELETE z` ... `y GOTO z` / `z REM` behind an END
+        let mut self_delete: Option<(u16, u16)> = None;
+        if rng.pct(6) && !prog.lines.is_empty() {
+            let first = prog.lines[0].num;
+            let last = prog.lines.last().unwrap().num;
+            if first > 0 && last < 65000 {
+                let (e, y, z) = (last + 2, last + 4, last + 6);
+                prog.lines.insert(
+                    0,
+                    Line {
+                        num: first - 1,
+                        stmts: vec![Stmt::DeleteCmd(Some(Target::Abs(z)), None)],
+                    },
+                );
+                crate::gen::map_targets(&mut prog, &mut |t| {
+                    if let Target::L(i) = t {
+                        *i += 1;
+                    }
+                });
+                prog.lines.push(Line { num: e, stmts: vec![Stmt::End] });
+                prog.lines.push(Line {
+                    num: y,
+                    stmts: vec![Stmt::Goto(Target::Abs(z))],
+                });
+                prog.lines.push(Line {
+                    num: z,
+                    stmts: vec![Stmt::Rem("TARGET".into(), false)],
+                });
+                self_delete = Some((y, z));
+            }
+        }
         let mut r = Ref::new(&prog);
         r.auto_reply = Some(rng.fork());
         r.max_steps = 3000;
@@ -762,7 +829,7 @@ impl Property for C19 {
             replies.push("1".into());
         }
         let n = prog.lines.len();
-        let nd = 1 + rng.geometric(2) as usize;
+        let nd = if self_delete.is_some() { 0 } else { 1 + rng.geometric(2) as usize };
         let mut damages = vec![];
         for _ in 0..nd.min(4) {
             let fault = match rng.below(20) {
@@ -810,6 +877,8 @@ impl Property for C19 {
             door,
             door_line: rng.usize(64),
             cont_after: rng.pct(40),
+            door_prefix: rng.pct(25),
+            self_delete,
             replies,
             sched_variant: rng.usize(4),
             entropy: rng.next_u64(),
@@ -828,7 +897,7 @@ impl Property for C19 {
         }
     }
     fn rule(&self) -> &'static str {
-        "one evaluation = a clean generated program typed into the real runtime, optionally RUN to its end or to a Ctrl-C at a seeded instruction (leaving frames, a CONT point, defined functions), then 1-4 planted faults typed as edits (dangling reference in GOTO / GOSUB / IF..THEN n / ELSE n / IF..GOTO n / ON..GOTO / ON..GOSUB / RESTORE n / RUN n, stray WHILE or WEND, token-level syntax damage; on a new line or in front of an existing line; 0-2 ASCII / multi-byte statements before the fault), then TRON and one of 13 doors (RUN, RUN n, GOTO n, GOSUB n, ON 1 GOTO n, ON 1 GOSUB n, IF 1 THEN n, FOR..GOSUB n..NEXT, CONT, RETURN, NEXT, PRINT FNx(..), RUN \"file\" from the SimDisk), in 40% followed by CONT, variable probes before and after, harmless PRINT before and after, RUN and LIST for the diagnostics; distinct = distinct API/event log fingerprint; non-trivial = damage was placed and the listing is what was typed"
+        "one evaluation = a clean generated program typed into the real runtime, optionally RUN to its end or to a Ctrl-C at a seeded instruction (leaving frames, a CONT point, defined functions), then 1-4 planted faults typed as edits (dangling reference in GOTO / GOSUB / IF..THEN n / ELSE n / IF..GOTO n / ON..GOTO / ON..GOSUB / RESTORE n / RUN n, stray WHILE or WEND, token-level syntax damage; on a new line or in front of an existing line; 0-2 ASCII / multi-byte statements before the fault), then TRON and one of 13 doors (RUN, RUN n, GOTO n, GOSUB n, ON 1 GOTO n, ON 1 GOSUB n, IF 1 THEN n, FOR..GOSUB n..NEXT, CONT, RETURN, NEXT, PRINT FNx(..), RUN \"file\" from the SimDisk), in 40% followed by CONT, in 25% typed behind `PRINT \"X\";:`; 6% of the programs damage themselves (their first line DELETEs the target of a later GOTO, RUN first); variable probes before and after, harmless PRINT before and after, RUN and LIST for the diagnostics; distinct = distinct API/event log fingerprint; non-trivial = damage was placed and the listing is what was typed"
     }
     fn assumptions(&self) -> Vec<&'static str> {
         vec![
@@ -872,6 +941,8 @@ impl Property for C19 {
             "c19.door_reported_diagnostics",
             "c19.diagnostics_checked",
             "c19.cont_after_door",
+            "c19.self_deleting_program",
+            "c19.door_with_cursor_mid_line",
         ]
     }
 }
